@@ -182,7 +182,7 @@ def parse_overlay(path):
 
 # ----------------------------------------------------------------------------- function / loop finder
 
-FN_RE = re.compile(r'(?m)^([ \t]*)((?:pub(?:\s*\([a-z]+\))?\s+)?)fn\s+([A-Za-z0-9_]+)')
+FN_RE = re.compile(r'(?m)^([ \t]*)(?:/\*@\+ [^\n]*?/\*@-\*/)?((?:pub(?:\s*\([a-z]+\))?\s+)?)fn\s+([A-Za-z0-9_]+)')
 IMPL_RE = re.compile(r'(?m)^([ \t]*)impl(?:<[^>{]*>)?\s+(?:([A-Za-z0-9_:<>\'&, ]+?)\s+for\s+)?([A-Za-z0-9_:]+)(?:<[^{]*>)?\s*(?:where[^{]*)?\{')
 
 
